@@ -57,6 +57,9 @@ class SimSocket(object):
         self.net.listeners[self.addr[1]] = self.fd      # one host per port in the simulated network
 
     def connect(self, addr):
+        if self.owner in self.net.unreachable:
+            # no route (interface down): the OS refuses the attempt at once, not through the poller
+            raise SockError(_errno.ENETUNREACH, 'Network is unreachable')
         self.addr = addr
         self.state = 'connecting'
         self.net.pending_connects.append(self.fd)
@@ -116,6 +119,7 @@ class Net(object):
         self.pending_connects = []
         self.sndcap = sndcap
         self.free_fds = []
+        self.unreachable = set()    # owners whose connect() fails synchronously with ENETUNREACH
 
     def new_fd(self):
         fd = 3
@@ -163,7 +167,7 @@ class Net(object):
 
     def key(self):
         return (tuple(sorted(s.key() for s in self.sockets.values() if s.state != 'closed' or s.out)),
-                tuple(sorted(self.listeners.items())), tuple(self.pending_connects))
+                tuple(sorted(self.listeners.items())), tuple(self.pending_connects), tuple(sorted(self.unreachable, key=repr)))
 
 
 class _Errno(object):
